@@ -116,7 +116,7 @@ type Sim struct {
 	Nondet   []string
 	seqToken int32  // address for the race annotations of Go
 	Livelock string // set when a task was stopped SpinOuts times in a row for passing 20000 yield points without blocking
-	SpinOuts int    // default 400 (8 million yield points); harnesses with long legitimate computations raise it
+	SpinOuts int    // default 100 (2 million yield points); harnesses with long legitimate computations raise it
 	sig      uint64
 	pairs    map[uint64]struct{}
 	lastSite int32
@@ -144,7 +144,7 @@ func New(c *Choices) *Sim {
 		parkSite: map[int]int32{},
 		alive:    map[int]*task{},
 		MaxSteps: 200000,
-		SpinOuts: 400,
+		SpinOuts: 100,
 		Quanta:   DefaultQuanta,
 		pairs:    map[uint64]struct{}{},
 		lastRun:  -1,
